@@ -318,6 +318,20 @@ class Tripwires:
         _tempfile._name_sequence = _Names()
 
 
+# tempfile binds os.unlink as a default argument at import time: look it up at call time instead,
+# so that the delete-on-close of a NamedTemporaryFile inside a window lands on the simulated file
+# system (and never on the real one). Harmless outside a window: os.unlink is the real one there.
+def _late_bound_tempfile_unlink():
+    import tempfile as _tempfile
+
+    _cl = getattr(getattr(_tempfile, "_TemporaryFileCloser", None), "cleanup", None)
+    if _cl is not None and _cl.__defaults__ and len(_cl.__defaults__) == 2:
+        _cl.__defaults__ = (_cl.__defaults__[0], lambda p: os.unlink(p))
+
+
+_late_bound_tempfile_unlink()
+
+
 # ------------------------------------------------------------------- window
 _OS_FUNCS = ("listxattr", "getxattr", "setxattr", "removexattr", "lseek", "sendfile", "stat", "lstat", "getcwd", "chdir", "readlink", "listdir", "mkdir", "unlink", "remove", "rmdir", "rename", "replace", "access", "open", "write", "read", "close", "fsync", "fdatasync", "fstat", "utime", "scandir", "fdopen", "chmod", "lchmod", "fchmod", "chown", "lchown", "fchown", "symlink", "link", "truncate", "ftruncate")
 _UNMODELLED = ("mkfifo", "mknod", "statvfs", "fwalk", "dup", "dup2", "pipe", "openpty", "copy_file_range", "splice", "pread", "pwrite", "readv", "writev")
